@@ -42,7 +42,7 @@ RULE = (
     "non-trivial = distinct (schema text, flags) whose result was converted and compared"
 )
 ASSUMPTIONS = [
-    "the standard query is py_gql.utilities.introspection_query(); includeDeprecated is patched textually",
+    "the standard query is py_gql.utilities.introspection_query() exactly as returned and is expected to request deprecated members; the includeDeprecated false / omitted variants patch that text, or use our own copy of the query when the text does not have the expected shape",
     "includeDeprecated false / omitted are only run for models (and, in __type lookups, for types) that declare a deprecation (the result is otherwise identical by construction of the query)",
     "code route is run for models with enum / input / scalar types (the only places where code-only facets are visible to introspection)",
     "order of fields / args / enum values / input fields is compared; interfaces and possible types are compared as sets of names",
@@ -72,14 +72,42 @@ def exc_where(e):
     return ("@" + where) if where else ""
 
 
+OWN_QUERY = """
+query IntrospectionQuery {
+  __schema {
+    queryType { name } mutationType { name } subscriptionType { name }
+    types { ...FullType }
+    directives { name description locations args { ...InputValue } }
+  }
+}
+fragment FullType on __Type {
+  kind name description
+  fields%(arg)s { name description args { ...InputValue } type { ...TypeRef } isDeprecated deprecationReason }
+  inputFields { ...InputValue }
+  interfaces { ...TypeRef }
+  enumValues%(arg)s { name description isDeprecated deprecationReason }
+  possibleTypes { ...TypeRef }
+}
+fragment InputValue on __InputValue { name description type { ...TypeRef } defaultValue }
+fragment TypeRef on __Type {
+  kind name ofType { kind name ofType { kind name ofType { kind name ofType { kind name ofType { kind name ofType { kind name ofType { kind name } } } } } } }
+}
+"""
+_ARG = {True: "(includeDeprecated: true)", False: "(includeDeprecated: false)", "omitted": ""}
+
+
 def std_query(include_deprecated):
+    """True: the library's introspection_query() exactly as returned (the property is about THAT query; it is
+    expected to ask for deprecated members).  False / "omitted": the same text with the argument patched when
+    the text has the expected two occurrences, otherwise our own copy of the standard query."""
     from py_gql.utilities import introspection_query
 
     q = introspection_query()
-    assert q.count("(includeDeprecated: true)") == 2
-    if include_deprecated == "omitted":  # the argument's default (false) applies
-        return q.replace("(includeDeprecated: true)", "")
-    return q if include_deprecated else q.replace("includeDeprecated: true", "includeDeprecated: false")
+    if include_deprecated is True:
+        return q
+    if q.count("(includeDeprecated: true)") == 2:
+        return q.replace("(includeDeprecated: true)", _ARG[include_deprecated])
+    return OWN_QUERY % {"arg": _ARG[include_deprecated]}
 
 
 def make(features, route):
@@ -191,6 +219,8 @@ def check_standard(schema, model, include_deprecated, generic, st=None, blocking
         cls = "content-differs:" + what
         if what in ("field.names", "field.order") and path in exp["types"]:
             cls += "[%s]" % exp["types"][path]["kind"]  # object or interface fields
+        if include_deprecated is True and what.endswith(".names") and not generic:
+            cls += "/standard-query"  # the unmodified query of the library must show every member
         if cls in seen:
             continue
         seen.add(cls)
